@@ -388,6 +388,23 @@ func vGenBitmapC(pat int, freeIdx []int, nbits int) (*bitmapContainer, *vDesc) {
 //   run   : 1..3 = R(r; L<=param "L"); 11..13 = R(r; free lengths); 20 = full; 21 = anchored long run [0+δ, 65528+δ]; 22 = two anchored long runs
 //   bitmap: 0 = B(lo; {0,64}; 2) 1 = B(lo;{0,65};4) 2 = B(thr;{0,1};4) 3 = B(hi;{0,1023};2) 4 = B(alt;{5};2) 5 = B(mid;{312,406};3) 6 = B(lo;{0,1,64};6)
 func vGenContainer(kind, shape int) (container, *vDesc) {
+	c, d := vGenContainer0(kind, shape)
+	if rc, ok := c.(*runContainer16); ok && vsym.Param("eff") == 1 {
+		// full invariant I: a run chunk is the smallest of the three representations (what Validate enforces)
+		card := 0
+		for _, iv := range rc.iv {
+			card += int(iv.length) + 1
+		}
+		sz := 2 + 4*len(rc.iv)
+		vsym.Assume(vsym.And(sz < 8192+bcBaseBytes, sz < 2*card))
+	}
+	if bc, ok := c.(*bitmapContainer); ok && vsym.Param("eff") == 1 {
+		vsym.Assume(bc.cardinality > arrayDefaultMaxSize)
+	}
+	return c, d
+}
+
+func vGenContainer0(kind, shape int) (container, *vDesc) {
 	switch kind {
 	case vKArray:
 		switch {
